@@ -129,6 +129,26 @@ func newSysFixture(r *Run, rng *Rng) *sysFixture {
 	return f
 }
 
+// serves reports whether the server answering on p's port publishes this
+// fixture's log key (log.v3.json as served by cmd/sunlight itself).
+func (f *sysFixture) serves(p *sysProc) bool {
+	req, _ := http.NewRequest("GET", fmt.Sprintf("http://127.0.0.1:%d%s/log.v3.json", p.Port, sysPath), nil)
+	req.Host = sysHost
+	resp, err := sysClient.Do(req)
+	if err != nil {
+		return false
+	}
+	defer resp.Body.Close()
+	var info struct {
+		Key []byte `json:"key"`
+	}
+	if json.NewDecoder(resp.Body).Decode(&info) != nil {
+		return false
+	}
+	spki, _ := x509.MarshalPKIXPublicKey(f.Key.Public())
+	return bytes.Equal(info.Key, spki)
+}
+
 // sysRace: the server binary under test is the race-detector build.
 func sysRace() bool { return os.Getenv("VERIF_SYS_RACE") != "" }
 
@@ -405,7 +425,14 @@ func (p *sysProc) waitReady(d time.Duration) bool {
 		c, err := net.DialTimeout("tcp", fmt.Sprintf("127.0.0.1:%d", p.Port), 200*time.Millisecond)
 		if err == nil {
 			c.Close()
-			return true
+			// the listener must be OUR process: a port number handed out by the
+			// kernel can be taken by a server of another test shard once a
+			// refused process has exited without ever listening
+			time.Sleep(30 * time.Millisecond)
+			if p.alive() {
+				return true
+			}
+			continue
 		}
 		time.Sleep(10 * time.Millisecond)
 	}
@@ -1340,7 +1367,15 @@ func TestSysStartupRefusals(t *testing.T) {
 				p.interrupt(5 * time.Second)
 				return
 			}
-			if ready || p.alive() {
+			// "serves" means: a server holding OUR log key answers on that port
+			serving := ready && f.serves(p)
+			if !serving && p.alive() {
+				select { // a refused process may need a moment to exit
+				case <-p.done:
+				case <-time.After(15 * time.Second):
+				}
+			}
+			if serving || p.alive() {
 				p.kill()
 				f.violate("startup-not-refused:"+v.name, "the server started and serves with configuration %q, which it must refuse", v.name)
 			} else {
